@@ -479,4 +479,11 @@ inductive CSel
   | many (c : CArr)
   deriving Repr, DecidableEq, Inhabited
 
+
+/-- the result of `__getitem__` on a list-backed collection: one signature or a new list -/
+inductive LSel
+  | one (x : List Int)
+  | many (xs : List (List Int))
+  deriving Repr, DecidableEq, Inhabited
+
 end GambitV.Py
